@@ -23,6 +23,8 @@ type Cfg struct {
 	Flush    int    `json:"flush"`
 	Sync     bool   `json:"sync,omitempty"`
 	InitVer  uint64 `json:"init_ver,omitempty"`
+	// InitMethod: the initial version is configured through MutableTree.SetInitialVersion instead of the option
+	InitMethod bool `json:"init_method,omitempty"`
 }
 
 type Op struct {
@@ -235,10 +237,13 @@ func (w *World) Close() {
 
 func (w *World) newTree() {
 	opts := []iavl.Option{iavl.FlushThresholdOption(w.Cfg.Flush), iavl.SyncOption(w.Cfg.Sync)}
-	if w.Cfg.InitVer > 0 {
+	if w.Cfg.InitVer > 0 && !w.Cfg.InitMethod {
 		opts = append(opts, iavl.InitialVersionOption(w.Cfg.InitVer))
 	}
 	w.Tree = iavl.NewMutableTree(w.DB, w.Cfg.Cache, w.Cfg.SkipFast, iavl.NewNopLogger(), opts...)
+	if w.Cfg.InitVer > 0 && w.Cfg.InitMethod {
+		w.Tree.SetInitialVersion(w.Cfg.InitVer)
+	}
 	// handles handed out by the replaced tree object belong to its (now stale) node database: one writer object per
 	// store is the supported use, so they are not followed any further
 	w.Held = nil
